@@ -571,6 +571,20 @@ class ConcEnv:
 # ----------------------------------------------------------------------------- exploration driver
 
 
+def _on_alarm(signum, frame):
+    raise PathAbort("timeout", "single path exceeded its wall-time budget (non-terminating loop?)")
+
+
+def _arm_watchdog(seconds):
+    import signal
+    import threading
+
+    if threading.current_thread() is not threading.main_thread():
+        return
+    signal.signal(signal.SIGALRM, _on_alarm)
+    signal.setitimer(signal.ITIMER_REAL, float(seconds))
+
+
 class ExploreResult:
     def __init__(self):
         self.stats = Stats()
@@ -583,7 +597,7 @@ class ExploreResult:
         self.validation_points: list = []
 
 
-def explore(scenario, cfg, *, max_paths=2000, tmax=300.0, query_timeout_ms=20000, keep_smt=1, allowed_exceptions=(), max_decisions=400, max_int_fork=64, prefix=None, validate_paths=0) -> ExploreResult:
+def explore(scenario, cfg, *, max_paths=2000, tmax=300.0, query_timeout_ms=20000, keep_smt=1, allowed_exceptions=(), max_decisions=400, max_int_fork=64, prefix=None, validate_paths=0, path_timeout=120.0) -> ExploreResult:
     """run ``scenario(env, cfg)`` on every feasible path (DFS over branch decisions)"""
     res = ExploreResult()
     t0 = time.time()
@@ -598,7 +612,9 @@ def explore(scenario, cfg, *, max_paths=2000, tmax=300.0, query_timeout_ms=20000
         obs: list = []
         env = SymEnv(p, obs, keep_smt=keep_smt if not any(o.smt for o in res.obligations) else 0)
         try:
+            _arm_watchdog(path_timeout)
             scenario(env, cfg)
+            _arm_watchdog(0)
             res.stats.paths += 1
             if len(res.validation_points) < validate_paths and env.observed:
                 vp = _validation_point(p, env)
@@ -617,6 +633,7 @@ def explore(scenario, cfg, *, max_paths=2000, tmax=300.0, query_timeout_ms=20000
         except Exception as e:  # harness or code-under-test error on this path
             res.errors.append({"kind": "exception", "msg": f"{type(e).__name__}: {e}", "trace": traceback.format_exc()[-3000:], "path": [bool(d) for d in p.decisions[: p.pos]]})
         finally:
+            _arm_watchdog(0)
             V._State.ctx = None
         res.stats.max_pc = max(res.stats.max_pc, len(p.pc))
         res.obligations.extend(obs)
